@@ -34,7 +34,7 @@ def value_for(rng, prog, i):
         if f["kind"] in ("unpack", "idx"):
             return tuple(c() for _ in f["truths"])
         if f["kind"] == "dict":
-            return {k: c() for k, _ in f["keys"]}
+            return {kvalue.dk(k): c() for k, _ in f["keys"]}
     return c()
 
 
